@@ -349,10 +349,43 @@ func (cm *CMap) parseBfRangeSection(section string) error {
 	return nil
 }
 
+// reflowBfRange rewrites a bfrange section so that every entry stands on a line of its
+// own (an array entry on a single line), whatever white space the producer put between the
+// tokens: several entries on one line, bare CR line ends, an array opening on the next line
+func reflowBfRange(section string) string {
+	var out strings.Builder
+	tokens, inArray := 0, false // tokens: hex strings of the current entry so far
+	for i := 0; i < len(section); i++ {
+		switch c := section[i]; {
+		case c == '<':
+			end := strings.IndexByte(section[i:], '>')
+			if end == -1 {
+				return out.String()
+			}
+			out.WriteString(section[i : i+end+1])
+			i += end
+			tokens++
+			if !inArray && tokens == 3 {
+				out.WriteByte('\n')
+				tokens = 0
+			} else {
+				out.WriteByte(' ')
+			}
+		case c == '[' && tokens == 2:
+			out.WriteString("[ ")
+			inArray = true
+		case c == ']' && inArray:
+			out.WriteString("]\n")
+			inArray, tokens = false, 0
+		}
+	}
+	return out.String()
+}
+
 // parseBfRangeSectionWithArrays handles bfrange sections that contain array format entries
 func (cm *CMap) parseBfRangeSectionWithArrays(section string) error {
 	// Split into lines for array handling (arrays may span lines)
-	lines := strings.Split(section, "\n")
+	lines := strings.Split(reflowBfRange(section), "\n")
 
 	i := 0
 	for i < len(lines) {
